@@ -229,6 +229,9 @@ func RunUciScript(sc *Scenario) *UciRunOut {
 	for i := range sc.Steps {
 		st := &sc.Steps[i]
 		out.StepIn[i] = -1
+		if simExhausted(sim) {
+			break
+		}
 		sim.ActorSleep(offGUI, st.GapUs*1000)
 		switch st.Op {
 		case "send", "damaged":
@@ -300,7 +303,7 @@ func RunUciScript(sc *Scenario) *UciRunOut {
 					ok = true
 					break
 				}
-				if sim.Now()-start > max*1_000_000 {
+				if sim.Now()-start > max*1_000_000 || simExhausted(sim) {
 					break
 				}
 				sim.ActorSleep(offGUI, poll*1000)
@@ -366,6 +369,9 @@ func DrainEngine(sim *Sim, off int) (timers int, searching bool) {
 
 //go:norace
 func simTimers(s *Sim) int { return s.TimersLive }
+
+//go:norace
+func simExhausted(s *Sim) bool { return s.Exhausted }
 
 //go:norace
 func simSearching(s *Sim) bool { return s.SearchActive }
